@@ -160,16 +160,37 @@ def check(ctx):
             gm = cls.methods["get_modified_time"]
             n_gm += 1
             bad = []
-            for f in m.reachable([gm], kinds=("call",)):
+            # everything the query can execute, also through hooks that subclasses override (`self._hook()` dispatches on the instance)
+            reach, work = set(), [gm]
+            subclasses = [k for k in m.classes.values() if cls in k.repo_mro()]
+            while work:
+                f = work.pop()
+                if f in reach:
+                    continue
+                reach.add(f)
+                work.extend(m.reachable([f], kinds=("call",)) - reach)
+                if f.cls is not None and f.pos_params:
+                    for c in f.own_calls():
+                        if isinstance(c.func, ast.Attribute) and is_name(c.func.value, f.pos_params[0]):
+                            for k in subclasses:
+                                ov = k.methods.get(c.func.attr)
+                                if ov is not None and ov not in reach:
+                                    work.append(ov)
+            for f in reach:
                 for c in f.own_calls():
                     why = c11.mutating_call(m, f, c)
+                    if not why and (ext_names(m, f, c) & {"builtins.open", "io.open", "os.open"}):
+                        why = "opens the file"
+                    if not why and isinstance(c.func, ast.Attribute) and c.func.attr in ("read", "write") and f.cls is not None and f.pos_params \
+                            and is_name(c.func.value, f.pos_params[0]):
+                        why = f"calls the store's own {c.func.attr}()"
                     if why:
                         bad.append((f, c, why))
             for f, c, why in bad:
                 ctx.ob("C14.D2", f"{cls.name}.get_modified_time", False, loc(f, c),
-                       f"a modified-time query performs a file mutation ({why}): a dry run changes store state", norm(c)[:100])
+                       f"a modified-time query does more than look at the file's metadata ({why}): a dry run reads or changes store state", norm(c)[:100])
             if not bad:
-                ctx.ob("C14.D2", f"{cls.name}.get_modified_time", True, loc(gm), "no file mutation reachable from the modified-time query")
+                ctx.ob("C14.D2", f"{cls.name}.get_modified_time", True, loc(gm), "neither a file mutation nor a read of the stored value is reachable from the modified-time query (subclass hooks included)")
     ctx.floor("C14.D2", "bundled get_modified_time implementations", n_gm, 4)
     from .c13 import owned_uses
     n_reg = owned_uses(ctx, "C14.D5", m, run, "registry", "registry", {}, [])
